@@ -129,10 +129,19 @@ func (w *walker) visit(root stackitem.Item) {
 }
 
 // walkVM walks the whole VM state.
+var (
+	theWalker = &walker{seen: map[stackitem.Item]int{}}
+	wStacks   = map[*vm.Stack]bool{}
+	wSlots    = map[*vm.Slot]bool{}
+)
+
 func walkVM(v *vm.VM) walkRes {
-	w := &walker{seen: map[stackitem.Item]int{}}
-	stacks := map[*vm.Stack]bool{}
-	slots := map[*vm.Slot]bool{}
+	w := theWalker
+	w.res = walkRes{}
+	clear(w.seen)
+	clear(wStacks)
+	clear(wSlots)
+	stacks, slots := wStacks, wSlots
 	addStack := func(s *vm.Stack) {
 		if s == nil || stacks[s] {
 			return
